@@ -4,7 +4,6 @@ import (
 	"encoding/binary"
 	"encoding/hex"
 	"hash"
-	"path"
 	"strconv"
 	"strings"
 
@@ -237,6 +236,20 @@ func newDigestFromByteStreamPathCommon(header, trailer []string) (Digest, remote
 	return d, compressor, err
 }
 
+// joinNonEmptyPathComponents joins the non-empty components with
+// slashes. Unlike path.Join() it does not lexically clean the result,
+// as that would alter instance names containing "." or ".." components,
+// causing the resulting path to refer to a different instance name.
+func joinNonEmptyPathComponents(components ...string) string {
+	nonEmpty := make([]string, 0, len(components))
+	for _, component := range components {
+		if component != "" {
+			nonEmpty = append(nonEmpty, component)
+		}
+	}
+	return strings.Join(nonEmpty, "/")
+}
+
 // GetByteStreamReadPath converts the Digest to a string having
 // one of the following formats:
 //
@@ -246,7 +259,7 @@ func newDigestFromByteStreamPathCommon(header, trailer []string) (Digest, remote
 // This notation is used to read files through the ByteStream service.
 func (d Digest) GetByteStreamReadPath(compressor remoteexecution.Compressor_Value) string {
 	digestFunction, hashStart, hashEnd, sizeBytes, sizeBytesEnd := d.unpack()
-	return path.Join(
+	return joinNonEmptyPathComponents(
 		d.value[sizeBytesEnd+1:],
 		compressorEnumToMidfix[compressor],
 		digestFunctionEnumToMidfix[digestFunction],
@@ -264,7 +277,7 @@ func (d Digest) GetByteStreamReadPath(compressor remoteexecution.Compressor_Valu
 // This notation is used to write files through the ByteStream service.
 func (d Digest) GetByteStreamWritePath(uuid uuid.UUID, compressor remoteexecution.Compressor_Value) string {
 	digestFunction, hashStart, hashEnd, sizeBytes, sizeBytesEnd := d.unpack()
-	return path.Join(
+	return joinNonEmptyPathComponents(
 		d.value[sizeBytesEnd+1:],
 		"uploads",
 		uuid.String(),
